@@ -1,7 +1,8 @@
 """C05 generator: Generated/Sb31Consts.lean from the CURRENT SB3.1 sources (pure `ast` reading).
 
 Emits plain `def`s (namespace SpsdkVerif.Generated.Sb31Consts):
-  * the EnumCmdTag members (14 commands + NONE), BaseCmd.TAG, TAG_TO_CLASS coverage,
+  * the EnumCmdTag members (14 commands + NONE), BaseCmd.TAG, TAG_TO_CLASS coverage, CFG_NAME_TO_CLASS (YAML name -> class -> tag)
+    and the configuration keys every class reads in load_from_config,
   * every struct format the export path packs with (as lists of field widths, little-endian flag),
     HEADER magic / version / description length / sizes, DATA_CHUNK_LENGTH, alignment constants of the
     command exports, the hash-locking tail, the fuse word size, effective HAS_MEMORY_ID_BLOCK per concrete load-like class,
@@ -394,6 +395,35 @@ def gen_Sb31Consts():
                 if isinstance(k, ast.Attribute) and isinstance(v, ast.Name):
                     t2c.append((td.get(k.attr, BAD), v.id))
     L.append(f"def tagToClass : List (Nat × String) := [{', '.join(f'({a}, \"{b}\")' for a, b in t2c)}]")
+
+    # CFG_NAME_TO_CLASS: YAML command name -> class, composed with the class tags: YAML name -> command tag
+    c2t = dict(cls_tag)
+    n2c = []
+    for n in ast.walk(cmd):
+        tgt = n.target if isinstance(n, ast.AnnAssign) else n.targets[0] if isinstance(n, ast.Assign) and n.targets else None
+        if isinstance(tgt, ast.Name) and tgt.id == "CFG_NAME_TO_CLASS" and isinstance(n.value, ast.Dict):
+            for k, v in zip(n.value.keys, n.value.values):
+                if isinstance(k, ast.Constant) and isinstance(v, ast.Name):
+                    n2c.append((str(k.value), v.id))
+    L.append(f"def cfgNameToClass : List (String × String) := [{', '.join(f'(\"{a}\", \"{b}\")' for a, b in n2c)}]")
+    L.append(f"def cfgNameToTag : List (String × Nat) := [{', '.join(f'(\"{a}\", {c2t.get(b, BAD)})' for a, b in n2c)}]")
+    # configuration keys each command class reads in load_from_config (`config["k"]`, `config.get("k", …)`), sorted
+    keys = []
+    for cname in sorted({b for _, b in n2c}):
+        fn = _fun(_cls(cmd, cname), "load_from_config")
+        ks = set()
+        for n in ast.walk(fn) if fn is not None else []:
+            if isinstance(n, ast.Subscript) and isinstance(n.value, ast.Name) and n.value.id == "config" \
+                    and isinstance(n.slice, ast.Constant) and isinstance(n.slice.value, str):
+                ks.add(n.slice.value)
+            if isinstance(n, ast.Call) and isinstance(n.func, ast.Attribute) and n.func.attr == "get" \
+                    and isinstance(n.func.value, ast.Name) and n.func.value.id == "config" and n.args \
+                    and isinstance(n.args[0], ast.Constant) and isinstance(n.args[0].value, str):
+                ks.add(n.args[0].value)
+        keys.append((cname, sorted(ks)))
+    L.append("def cfgKeys : List (String × List String) := [" +
+             ", ".join(f'(\"{a}\", [{", ".join(chr(34) + k + chr(34) for k in ks)}])' for a, ks in keys) + "]")
+    meta["cfg_keys"] = {a: ks for a, ks in keys}
 
     # ---- command formats / constants
     base = _cls(cmd, "BaseCmd")
